@@ -30,7 +30,8 @@ CONF = {
 }
 CODE4 = b"\x00\x11\x22\x33\x44\x55\x66\x00"
 CONF[4] = {(0x3333, 0x03): b"\x07\x07", (0x0202, 0x82): CODE4, (0x0620, 0x01): (4711).to_bytes(2, "big"), (0x0620, 0x05): (12).to_bytes(1, "big"),
-           (0x0620, 0x02): (3).to_bytes(1, "big"), (0x0620, 0x07): b"\x00", (0x0620, 0x06): b"VersionZero"}
+           (0x0620, 0x07): b"\x00", (0x0620, 0x06): b"VersionZero"}        # (no device id 0x02: it defaults to 0000)
+EXTRA_BLOCK = b"\x01\x77\x66\x01\x02\xAB\xCD"         # a caller-supplied TLV block (set_config's second argument)
 UPD = {1: (CODE1, 9), 3: (CODE3, 7), 4: (CODE4, 0)}       # security code and identifier version each configuration states
 
 
@@ -54,6 +55,12 @@ class Gamma:
             self.cm[c] = dict(g.comments)
         if len({v[1] for v in self.cfg_blob.values()}) != len(CONF):
             raise MachineryError("configurations are not distinguishable")
+        self.cfgx_blob = {}
+        for c in (1, 2):
+            f = Bf3File()
+            f.set_config(dict(CONF[c]), [EXTRA_BLOCK])
+            comp = f.components[0]
+            self.cfgx_blob[c] = (dict(comp.description), bytes(comp.blob))
 
 
 def fw_comp(kind, n):
@@ -81,7 +88,9 @@ def project(bec, g):
         else:
             hit = [c for c, (dd, bb) in g.cfg_blob.items() if d == dd and blob[:comp.actual_len] == bb and comp.actual_len == len(bb)
                    and comp.encrypt_by_session_key]
-            comps.append({"k": "cfg", "id": hit[0]} if hit else {"k": "unrecognised", "id": 0})
+            hitx = [c for c, (dd, bb) in g.cfgx_blob.items() if d == dd and blob[:comp.actual_len] == bb and comp.actual_len == len(bb)
+                    and comp.encrypt_by_session_key]
+            comps.append({"k": "cfg", "id": hit[0]} if hit else {"k": "cfgx", "id": hitx[0]} if hitx else {"k": "unrecognised", "id": 0})
     cm = {}
     for key in ("Configuration", "DeviceSettings", "RequiresBusAddress"):
         v = bec.bf3file.comments.get(key)
@@ -125,6 +134,8 @@ def apply_op(bec, label, nfw, gamma=None):
     args = [a.strip().strip('"') for a in rest.rstrip(")").split(",")] if rest else []
     if name == "SetCfg":
         f.set_config(CONF[int(args[0])])
+    elif name == "SetCfgX":
+        f.set_config(CONF[int(args[0])], [EXTRA_BLOCK])
     elif name == "DeriveCm":
         f.derive_comments_from_config(CONF[int(args[0])])
     elif name == "DeriveAuth":
@@ -163,6 +174,7 @@ def apply_op(bec, label, nfw, gamma=None):
 
 
 _G = {}
+_PRISTINE = {c: dict(v) for c, v in CONF.items()}
 
 
 def _walk(args):
@@ -184,6 +196,12 @@ def _walk(args):
         try:
             apply_op(b2, label, graph.nodes[src]["nfw"], g)
             got = project(b2, g)
+            if CONF != _PRISTINE:                 # the operations READ the caller's configuration dictionaries
+                got = {"exception": {"cls": "ObservationMismatch", "mro": [], "msg": "the caller's configuration dictionary was modified: %r" % (
+                    {c: {k: v for k, v in CONF[c].items() if _PRISTINE[c].get(k) != v} for c in CONF if CONF[c] != _PRISTINE[c]},)}}
+                for c in CONF:
+                    CONF[c].clear()
+                    CONF[c].update(_PRISTINE[c])
             if twin is not None and project(twin, g) != before:
                 got = {"exception": {"cls": "ObservationMismatch", "mro": [], "msg": "a second file built from the same component list changed: %r -> %r" % (before, project(twin, g))}}
         except Exception as e:               # noqa: BLE001
@@ -210,7 +228,7 @@ def run(tier):
         res = tlc.require_ok(tlc.run(os.path.join(SPEC, "ObjModel.tla"), cfg("FALSE", 2, depth), os.path.join(wd, "mc"), workers=16,
                                      timeout=1800, dump=dump), "ObjModel")
         rep.add_mc("ObjModel: all operation sequences up to %d steps over 3 configurations, <= 2 firmware components" % depth, res,
-                   {"MaxSteps": depth, "MaxFw": 2, "operations": 27})
+                   {"MaxSteps": depth, "MaxFw": 2, "operations": 29})
         if tier == "thorough":
             res7 = tlc.require_ok(tlc.run(os.path.join(SPEC, "ObjModel.tla"), cfg("FALSE", 3, 8), os.path.join(wd, "mc8"), workers=16, timeout=2400), "ObjModel/8")
             rep.add_mc("ObjModel: depth 8, <= 3 firmware components (MC only)", res7, {"MaxSteps": 8, "MaxFw": 3})
